@@ -14,12 +14,12 @@ for d in "$@"; do
     if [ $res_build = 1 ]; then
       res_tests=$(ctest --test-dir $WT/_b -j8 --timeout 900 2>/dev/null | grep -c "Passed")
       if [ -f $d/demo.c ]; then
-        cc -I$WT/include $d/demo.c -L$WT/_b/bin -lgmssl -Wl,-rpath,$WT/_b/bin -o $WT/demo_with 2>/dev/null && { (cd $WT && timeout 120 ./demo_with >/dev/null 2>&1); demo_with=$?; }
+        cc -DENABLE_SM4_CCM -DENABLE_SM4_CFB -DENABLE_SM4_OFB -DENABLE_SM4_XTS -DENABLE_SM4_ECB -I$WT/include $d/demo.c -L$WT/_b/bin -lgmssl -Wl,-rpath,$WT/_b/bin -o $WT/demo_with 2>/dev/null && { (cd $WT && timeout 120 ./demo_with >/dev/null 2>&1); demo_with=$?; }
       elif [ -f $d/demo.sh ]; then (cd $WT && WORKTREE=$WT timeout 300 bash $d/demo.sh >/dev/null 2>&1); demo_with=$?; fi
       git -C $WT checkout -q -- src include tools tests 2>/dev/null
       cmake --build $WT/_b -j 8 >/dev/null 2>&1
       if [ -f $d/demo.c ]; then
-        cc -I$WT/include $d/demo.c -L$WT/_b/bin -lgmssl -Wl,-rpath,$WT/_b/bin -o $WT/demo_without 2>/dev/null && { (cd $WT && timeout 120 ./demo_without >/dev/null 2>&1); demo_without=$?; }
+        cc -DENABLE_SM4_CCM -DENABLE_SM4_CFB -DENABLE_SM4_OFB -DENABLE_SM4_XTS -DENABLE_SM4_ECB -I$WT/include $d/demo.c -L$WT/_b/bin -lgmssl -Wl,-rpath,$WT/_b/bin -o $WT/demo_without 2>/dev/null && { (cd $WT && timeout 120 ./demo_without >/dev/null 2>&1); demo_without=$?; }
       elif [ -f $d/demo.sh ]; then (cd $WT && WORKTREE=$WT timeout 300 bash $d/demo.sh >/dev/null 2>&1); demo_without=$?; fi
     fi
   fi
